@@ -107,7 +107,7 @@ for _pid, _what, _extra_t, _extra_w in (
          "; no chunked scan of the values ignores its remainder; block base and delta are refused when wider than their configured width"),
         ("C10", "index parameters are guarded before unchecked access; push/pop examine fullness/emptiness before touching a slot",
          "; wrapped-cursor store rule (R-WRAP), empty-by-construction range rule (R-EMPTYRANGE), sync-before-remap ordering (R-ORDER), "
-         "clear() completeness (R-CLEAR), bulk-vs-single effect agreement (R-SIBLING.batch), end-derived-from-start of bump ranges (R-RANGE.dep), power-of-two backing of mask wraps (R-WRAP.pow2), full-width comparison before a usize parameter is "
+         "clear() completeness (R-CLEAR), paired rewind of the ring cursors in clear() (R-CLEAR.cursors), bulk-vs-single effect agreement (R-SIBLING.batch), end-derived-from-start of bump ranges (R-RANGE.dep), power-of-two backing of mask wraps (R-WRAP.pow2), full-width comparison before a usize parameter is "
          "narrowed (R-NARROWIDX), length kept in step with raw writes from a user iterator (R-PANICSAFE.len)",
          "; ring cursors are only stored wrapped; drop loops of shrinking operations are not empty by construction; MmapVec "
          "writes its mapping back before re-reading the file")):
